@@ -352,6 +352,10 @@ pub struct IQLEngine {
     /// Whether the current program contains recursive rules
     has_recursion: bool,
 
+    /// Magic-set seed relations injected into `input_tuples` for the execution in progress,
+    /// with the contents each had before (normally none). Restored when the execution ends.
+    magic_seed_undo: Vec<(String, Option<Vec<Tuple>>)>,
+
     /// Strata for rule evaluation order (computed during analysis)
     strata: Vec<Vec<usize>>,
 
@@ -400,6 +404,7 @@ impl IQLEngine {
             catalog: Catalog::new(),
             optimization_config: OptimizationConfig::default(),
             has_recursion: false,
+            magic_seed_undo: Vec::new(),
             strata: Vec::new(),
             shared_views: HashMap::new(),
             semiring_annotations: Vec::new(),
@@ -421,6 +426,7 @@ impl IQLEngine {
             catalog: Catalog::new(),
             optimization_config: config,
             has_recursion: false,
+            magic_seed_undo: Vec::new(),
             strata: Vec::new(),
             shared_views: HashMap::new(),
             semiring_annotations: Vec::new(),
@@ -749,8 +755,12 @@ impl IQLEngine {
                 }
             }
 
-            // Inject magic seed facts into input_tuples
+            // Inject magic seed facts into input_tuples. They belong to this one execution:
+            // remember what to undo, otherwise a long-lived engine (a knowledge graph keeps one)
+            // would keep the seeds as if they were stored facts of a relation `magic_*`.
             for (magic_rel, seed_tuples) in magic_seeds {
+                self.magic_seed_undo
+                    .push((magic_rel.clone(), self.input_tuples.get(&magic_rel).cloned()));
                 self.input_tuples
                     .entry(magic_rel)
                     .or_default()
@@ -1526,6 +1536,33 @@ impl IQLEngine {
     /// relation results computed during evaluation. This is used by the provenance
     /// system to avoid expensive re-derivation during backward chaining.
     pub fn execute_tuples_profiled(
+        &mut self,
+        source: &str,
+    ) -> Result<
+        (
+            Vec<Tuple>,
+            HashMap<String, Vec<Tuple>>,
+            Option<execution::TimingBreakdown>,
+        ),
+        String,
+    > {
+        let result = self.execute_tuples_profiled_inner(source);
+        // Executing a query must not change the stored facts: take the magic-set seeds of this
+        // execution out again (in reverse order, restoring whatever was there before).
+        while let Some((magic_rel, previous)) = self.magic_seed_undo.pop() {
+            match previous {
+                Some(tuples) => {
+                    self.input_tuples.insert(magic_rel, tuples);
+                }
+                None => {
+                    self.input_tuples.remove(&magic_rel);
+                }
+            }
+        }
+        result
+    }
+
+    fn execute_tuples_profiled_inner(
         &mut self,
         source: &str,
     ) -> Result<
